@@ -5,6 +5,7 @@
 -/
 import Nice.Proofs.StunFraming
 import Nice.Proofs.StunFind
+import Nice.Props.C03Recv
 namespace Nice.Props.C06
 open Nice.Stun Nice.Spec.Stun
 
